@@ -306,7 +306,7 @@ def run_scenario(g, sc, model=None, rng=None):
     """Run one scenario; returns the record: emitted datagrams and outcome per step."""
     import random
     rng = rng or random.Random(sc.get("seed", 1))
-    state = {"step": None, "k": 0, "reqs": []}
+    state = {"step": None, "k": 0, "reqs": [], "exchanges": []}
     keys_cache = {}
 
     def keys_for(engine_hex):
@@ -327,7 +327,9 @@ def run_scenario(g, sc, model=None, rng=None):
         state["k"] += 1
         if st.get("mib") is not None:
             sp = mib_reply(st["mib"], req, sc)
-            return [(0, build_reply(sp, req, sc, keys, model, rng))] if sp is not None else []
+            r = [(0, build_reply(sp, req, sc, keys, model, rng))] if sp is not None else []
+            state["exchanges"].append({"request": data.hex(), "replies": [d.hex() for _, d in r]})
+            return r
         specs = st.get("replies", [])
         if k < len(specs):
             lst = specs[k]
@@ -338,6 +340,7 @@ def run_scenario(g, sc, model=None, rng=None):
         out = []
         for sp in lst:
             out.append((sp.get("delay", 0), build_reply(sp, req, sc, keys, model, rng)))
+        state["exchanges"].append({"request": data.hex(), "replies": [d.hex() for _, d in out]})
         return out
 
     agent = apilib.Agent(handler)
@@ -349,6 +352,7 @@ def run_scenario(g, sc, model=None, rng=None):
             state["step"] = st
             state["k"] = 0
             state["reqs"] = []
+            state["exchanges"] = []
             agent.take()
             t0 = time.time()
             r = sess.op(st["op"], st.get("args", []), st.get("cap", 200))
@@ -357,6 +361,7 @@ def run_scenario(g, sc, model=None, rng=None):
                 time.sleep(st["settle"])
             r["emitted"] = [d.hex() for d in agent.take()]
             r["requests"] = [summarise(q) for q in state["reqs"]]
+            r["exchanges"] = list(state["exchanges"])
             rec["steps"].append(r)
         state["step"] = None
         sess.close()
